@@ -981,6 +981,11 @@ func (t *tScreen) drawCell(x, y int) int {
 
 	buf = t.encodeRune(mainc, buf)
 	for _, r := range combc {
+		if r < ' ' || (r >= 0x7f && r < 0xa0) {
+			// a control character is no combining mark, whatever list
+			// it was put in: it is not written to the terminal
+			continue
+		}
 		buf = t.encodeRune(r, buf)
 	}
 
